@@ -14,14 +14,21 @@ DRIVER = "drv_persist"
 HARNESS_BIN = "persist"
 HARNESS_FEATURES = ""
 PARTIAL = [
-    "crash_sound_core is proved in full on the core model Qbice.Core (inputs, normal queries, externals, unordered "
-    "groups; dynamic dependency sets): every image of the store between two logical write batches of any history — "
-    "including the images in the middle of a query, with the dirty edges of keys still in progress as the store still "
-    "has them — satisfies the C01 invariant, shows the inputs of a prefix of the history, and the engine reopened on it "
-    "answers every query with the from-scratch value for those inputs.  It is not restated on Qbice.CoreFw (firewall / "
-    "projection nodes, backward projection): there the statement is covered by the correspondence (model `crash L` vs "
-    "the real engine reopened on the first p physical commits, every p) and the from-scratch oracle; no attribution is "
-    "left — any wrong value after a crash is a violation (F1 / F14 are fixed in /repo).",
+    "crash_sound_fw_partial (PART 1) is proved on the extended core model Qbice.CoreFw (all five query kinds, backward "
+    "projection, unordered groups) for programs with WF p and Shape p (no projection over a projection, or all "
+    "projections static — the hypothesis of C01's core_history_sound_partial): every image of the store between two "
+    "logical write batches of any history — also in the middle of a query, of the repair of the transitive firewall "
+    "callees and of a backward projection — satisfies the C01 invariant, shows the inputs of a prefix of the history, "
+    "and every continuation (sessions and rounds) run on the reopened engine returns the from-scratch outputs and never "
+    "runs out of fuel (crash_query_sound_fw_partial: every single user query).  Missing for the full statement: "
+    "programs outside Shape (a non-static projection over a projection), exactly as in C01.  crash_sound_core (PART 2) "
+    "is the same statement proved in FULL on Qbice.Core (inputs, normal queries, externals, unordered groups).  "
+    "Executor invocations after recovery: nothing is promised beyond crash_verified_no_exec_fw (a key the image shows "
+    "verified is served without running any executor); the property allows recomputation.",
+    "the images are those of the sequential models (one batch per key at the end of its processing; the full model "
+    "Model/EnginePersist.lean with hash-set walk orders and the computing table is tied to the code by the "
+    "correspondence: model `crash L` vs the real engine reopened on the first p physical commits, every p; any wrong "
+    "value after a crash is a violation).",
     "prefix_is_reachable: the batch of a publication is defined as the difference of the persistent images before "
     "and after it; that the code's batches have exactly these boundaries is tied by the correspondence (`crash L` "
     "addresses the model's L-th image; batch counts at every shutdown are compared, up to the first walk-order "
